@@ -6,7 +6,7 @@
      Frame      one iteration of the loop in viterbi_align (= one call of the numba kernel compute_update)
      Finish     final_cost, failure test, arg-min over the two final states
      Backtrack  one iteration of the loop in backtrack()
-     AlignText  the loop of align_text: per character the aligned frame where the network is most confident
+     AlignText  one iteration of the loop of align_text: the aligned frame of the next character where the network is most confident
    Costs are small naturals plus the distinguished Inf (np.inf); Plus saturates like IEEE addition does.
 
    The code keeps one back-pointer per (frame, state): the first strict minimum in the iteration order of
@@ -133,14 +133,16 @@ Backtrack == /\ phase = "backtrack"
 SymPath == [f \in 1..Len(path) |-> SymOf(path[f])]            \* force_align(...)
 SeqPath == [f \in 1..Len(path) |-> CharOfS(path[f])]          \* force_align(..., return_seq_positions=True), +1
 
+\* one iteration of the loop over the characters in align_text
 AlignText == /\ phase = "aligned"
-             /\ \E p \in [1..L -> 1..T] :
-                   /\ IF Mut = "argmin_pos"
-                      THEN \A k \in 1..L : p[k] \in FramesOf(SeqPath, k)
-                                           /\ \A f \in FramesOf(SeqPath, k) : FrameBest(p[k]) >= FrameBest(f)
-                      ELSE PosAdmissible(p, SeqPath)
-                   /\ pos' = p
-             /\ phase' = "done"
+             /\ IF Len(pos) = L
+                THEN phase' = "done" /\ UNCHANGED pos
+                ELSE LET k == Len(pos) + 1
+                         fr == FramesOf(SeqPath, k)                           \* np.nonzero(logit_characters == i)
+                         conf == {FrameBest(f) : f \in fr}
+                         pick == IF Mut = "argmin_pos" THEN CHOOSE m \in conf : \A o \in conf : m >= o ELSE MinOf(conf)
+                     IN  /\ \E f \in fr : FrameBest(f) = pick /\ pos' = Append(pos, f)
+                         /\ UNCHANGED phase
              /\ UNCHANGED <<cm, labels, blank, t, hist, path>>
 
 Next == Build \/ Frame \/ Finish \/ Backtrack \/ AlignText
